@@ -256,3 +256,72 @@ def kind_of_text(t):
         n, d = t.lstrip(b"-").split(b"/")
         return "bigratio" if (int(n) > 2 ** 63 or int(d) >= 2 ** 63) else "ratio"
     return "other"
+
+
+# ------------------------------------------------------------------ float oracle
+import struct
+
+
+def expect_float_bits(text, exp):
+    t = text.replace("_", "") if exp else text
+    try:
+        v = float(t)
+    except (ValueError, OverflowError):
+        return None
+    u = struct.unpack(">Q", struct.pack(">d", v))[0]
+    return "%016x" % u
+
+
+# ------------------------------------------------------------------ string unescape oracle
+def unescape(raw, clj):
+    """decoded bytes of a string literal body, or None when it contains an escape the
+    configuration does not define"""
+    out = bytearray()
+    i, n = 0, len(raw)
+    while i < n:
+        c = raw[i]
+        if c != 0x5C:
+            out.append(c)
+            i += 1
+            continue
+        i += 1
+        if i >= n:
+            return None
+        e = raw[i]
+        i += 1
+        simple = {0x22: 0x22, 0x5C: 0x5C, 0x6E: 0x0A, 0x74: 0x09, 0x72: 0x0D}
+        if e in simple:
+            out.append(simple[e])
+        elif clj and e == 0x66:
+            out.append(0x0C)
+        elif clj and e == 0x62:
+            out.append(0x08)
+        elif clj and e == 0x75:
+            h = raw[i:i + 4]
+            if len(h) < 4 or any(ch not in b"0123456789abcdefABCDEF" for ch in h):
+                return None
+            cp = int(h, 16)
+            i += 4
+            if 0xD800 <= cp <= 0xDFFF:
+                return None
+            out += chr(cp).encode("utf-8")
+        elif clj and 0x30 <= e <= 0x37:
+            v = e - 0x30
+            for _ in range(2):
+                if i < n and 0x30 <= raw[i] <= 0x37 and v * 8 + raw[i] - 0x30 <= 255:
+                    v = v * 8 + raw[i] - 0x30
+                    i += 1
+                else:
+                    break
+            out.append(v)
+        else:
+            return None
+    return bytes(out)
+
+
+# ------------------------------------------------------------------ positions
+def line_col(buf, off):
+    before = buf[:off]
+    line = 1 + before.count(b"\n")
+    last = before.rfind(b"\n")
+    return line, off - last
